@@ -1,4 +1,6 @@
 """C14 - function signatures never miss a register parameter."""
+import os
+
 import core
 from core import Report
 from common import TRUSTED
@@ -55,7 +57,7 @@ def check(seed, tier):
     rep = Report("C14", seed, tier)
     core.build_harness()
     meta = core.gen("C14", seed, tier, shards=8)
-    core.validate_traces(rep, TRACE_SPEC, meta["files"], parallel=4 if tier == "quick" else 8, timeout=3600)
+    core.validate_traces(rep, TRACE_SPEC, meta["files"], parallel=int(os.environ.get("VERIF_PAR", 4 if tier == "quick" else 8)), timeout=3600)
     core.canary(rep, TRACE_SPEC, meta["files"][0], _mutate, n=60)
     rep.traces, rep.events = meta["cases"], meta["events"]
     return rep.finish("model_checking", {
